@@ -7,3 +7,4 @@ import L21.Props.C15
 #print axioms L21.Gds.c01_record_too_long
 #print axioms L21.Gds.c01_total
 #print axioms L21.GdsFloat.c15_decode_encode
+#print axioms L21.Gds.c01_tree_roundtrip
